@@ -49,7 +49,7 @@ func (r *Run) intrinsic1(name string, fn *ssa.Function) externalFn {
 			return zero(res)
 		}
 	}
-	if i := strings.LastIndex(name, "/verif."); i >= 0 && strings.HasSuffix(name[:i], "internal") || strings.HasPrefix(name, "verif.") {
+	if fn.Pkg != nil && (strings.HasSuffix(fn.Pkg.Pkg.Path(), "/verif") || fn.Pkg.Pkg.Path() == "verif") && fn.Signature.Recv() == nil {
 		short := name[strings.LastIndex(name, ".")+1:]
 		if f, ok := verifFns[short]; ok {
 			return func(fr *frame, args []value) value { return f(r, fr, args) }
